@@ -98,10 +98,14 @@ WriteString(s) ==
         ELSE IF NeedsEscaping(s[1]) THEN <<39>> \o Escape(s[1], -1) \o <<39>> ELSE <<39, s[1], 39>>)
   ELSE IF UsesLongBracket(s) THEN WriteLongBracket(s)
   ELSE WriteQuoted(s)
+\* write_string_on_one_line (the token-based generator, for a string node that holds no token: repaired finding F-C04-b):
+\* always between quotes, line feeds escaped
+WriteStringOneLine(s) == IF Len(s) <= 1 THEN WriteString(s) ELSE WriteQuoted(s)
 
 \* ------------------------------------------------------------------ the theorem
 ReadsBackAs(text, s, luau) == LET r == Lex(text, luau) IN r.ok /\ Len(r.toks) = 1 /\ r.toks[1].k = "str" /\ r.toks[1].v = s
-RoundTrip(s) == ReadsBackAs(WriteString(s), s, TRUE) /\ (NeedsUnicodeEscape(s) \/ ReadsBackAs(WriteString(s), s, FALSE))
+RoundTrip(s) == /\ ReadsBackAs(WriteString(s), s, TRUE) /\ (NeedsUnicodeEscape(s) \/ ReadsBackAs(WriteString(s), s, FALSE))
+                /\ ReadsBackAs(WriteStringOneLine(s), s, TRUE) /\ (NeedsUnicodeEscape(s) \/ ReadsBackAs(WriteStringOneLine(s), s, FALSE))
 \* REPAIRED finding F-C13-a (where the old writer, DEV_LONG_BRACKET=1, fails): the long-bracket level was chosen so that `]=*]` of that level does not occur INSIDE the value
 \* (and one more when the value ends with `]`), but a value ending with `]` followed by exactly `level` `=` signs forms
 \* the closing bracket together with the first `]` of the real one
